@@ -185,6 +185,8 @@ func H_C16_rotate() {
 	oldW := mkWrapper("old")
 	oldSalt, oldInfo := symBytes(), symBytes()
 	ef := &Filter{Wrapper: oldW, HmacSalt: oldSalt, HmacInfo: oldInfo}
+	// the material in force so far belongs to whoever configured it (Rotate and the struct literal keep the caller's slices)
+	keepSalt, keepInfo := append([]byte(nil), oldSalt...), append([]byte(nil), oldInfo...)
 	var newW *aead.Wrapper
 	if nondetBool() {
 		newW = mkWrapper("new")
@@ -217,6 +219,8 @@ func H_C16_rotate() {
 	if newInfo != nil {
 		wantInfo = newInfo
 	}
+	verifAssert(len(oldSalt) == len(keepSalt) && (len(oldSalt) == 0 || sameBytes(oldSalt, keepSalt)), "C16.rotate.earlier-salt-slice-not-written")
+	verifAssert(len(oldInfo) == len(keepInfo) && (len(oldInfo) == 0 || sameBytes(oldInfo, keepInfo)), "C16.rotate.earlier-info-slice-not-written")
 	verifAssert(verifSame(ef.Wrapper, wrapping.Wrapper(wantW)), "C16.rotate.wrapper-in-force")
 	verifAssert(sameBytes(ef.HmacSalt, wantSalt), "C16.rotate.salt-in-force")
 	verifAssert(sameBytes(ef.HmacInfo, wantInfo), "C16.rotate.info-in-force")
